@@ -28,7 +28,7 @@ def _search(ctx, deep=False):
     viol, ev = C05.probe_d16(), 1
     tags = {}
     for t in range(N):
-        cfg = kc.gen_config(rng, latlon_ok=True)
+        cfg = kc.gen_config(rng, latlon_ok=True, strat=t)
         # force zero measurement error: exact mode, or explicit zero error, or nugget-free model
         mode = str(rng.choice(["exact", "zero-err", "no-nugget"]))
         cfg2 = C05.zero_cfg(cfg, mode)
